@@ -1,8 +1,181 @@
-(* C04 — Scalar values decode to the value PostgreSQL stored.  Property theorems only. *)
+(* C04 — Scalar values decode to the value PostgreSQL stored.
+   Property theorems only; proofs live in C04/*Proofs.v.  In every theorem [o] bundles the oracles
+   (float / money text rendering, ToValidUTF8, json.Unmarshal, the sub-decoders of C05/C06/C07):
+   the statement holds for EVERY choice of them, and [t] is whatever lies behind the slice up to its
+   capacity.  enc_* is PostgreSQL's stored image, exp_* the expected result computed from the
+   abstract value alone (C04/Spec.v). *)
 Require Import PG.Base.Bytes PG.Base.GoSlice PG.Base.Value.
-Require Import PG.C04.Lib PG.C04.Model PG.C04.Spec PG.C04.FixedProofs.
+Require Import PG.C04.Lib PG.C04.Model PG.C04.Spec PG.C04.ExamplesProofs.
+Require Import PG.C04.FixedProofs PG.C04.CalProofs PG.C04.TextProofs PG.C04.NetProofs PG.C04.RangeProofs
+               PG.C04.PathProofs PG.C04.SafetyProofs.
+Notation DT := DecodeTypeO.
+Notation "'IMG' b t" := {| vis := b; tail := t |} (at level 10, b at level 9, t at level 9).
 
-Theorem C04_int4 : forall fg fm tv ju dn jb da v t,
-  in_s 32 v -> DecodeType fg fm tv ju dn jb da {| vis := enc_int4 v; tail := t |} 23 = Ok (exp_int4 v).
-Proof. exact int4_ok. Qed.
+(* ---- integers, OIDs, transaction ids, floats: exactly ---- *)
+Theorem C04_bool : forall o b t, DT o (IMG (enc_bool b) t) 16 = Ok (exp_bool b).
+Proof. intros o. apply bool_ok. Qed.
+Print Assumptions C04_bool.
+Theorem C04_char : forall o c t, DT o (IMG (enc_char c) t) 18 = Ok (exp_char c).
+Proof. intros o. apply char_ok. Qed.
+Print Assumptions C04_char.
+Theorem C04_name : forall o n t, wf_name n -> DT o (IMG (enc_name n) t) 19 = Ok (exp_name n).
+Proof. intros o. apply name_ok. Qed.
+Print Assumptions C04_name.
+Theorem C04_int2 : forall o v t, in_s 16 v -> DT o (IMG (enc_int2 v) t) 21 = Ok (exp_int2 v).
+Proof. intros o. apply int2_ok. Qed.
+Print Assumptions C04_int2.
+Theorem C04_int4 : forall o v t, in_s 32 v -> DT o (IMG (enc_int4 v) t) 23 = Ok (exp_int4 v).
+Proof. intros o. apply int4_ok. Qed.
 Print Assumptions C04_int4.
+Theorem C04_int8 : forall o v t, in_s 64 v -> DT o (IMG (enc_int8 v) t) 20 = Ok (exp_int8 v).
+Proof. intros o. apply int8_ok. Qed.
+Print Assumptions C04_int8.
+(* oid (26), xid (28), cid (29): unsigned, the full range 0 .. 2^32-1 *)
+Theorem C04_oid_xid_cid : forall o oid v t, oid = 26 \/ oid = 28 \/ oid = 29 -> in_u 32 v ->
+  DT o (IMG (enc_u32 v) t) oid = Ok (exp_u32 v).
+Proof. intros o. apply u32_ok. Qed.
+Print Assumptions C04_oid_xid_cid.
+(* all 2^32 / 2^64 bit patterns, NaN payloads included *)
+Theorem C04_float4 : forall o b t, in_u 32 b -> DT o (IMG (enc_float4 b) t) 700 = Ok (exp_float4 b).
+Proof. intros o. apply float4_ok. Qed.
+Print Assumptions C04_float4.
+Theorem C04_float8 : forall o b t, in_u 64 b -> DT o (IMG (enc_float8 b) t) 701 = Ok (exp_float8 b).
+Proof. intros o. apply float8_ok. Qed.
+Print Assumptions C04_float8.
+Theorem C04_money : forall o c t, in_s 64 c -> DT o (IMG (enc_money c) t) 790 = Ok (exp_money (o_fmt_money o) c).
+Proof. intros o. apply money_ok. Qed.
+Print Assumptions C04_money.
+
+(* ---- text types byte for byte (valid UTF-8, non-empty: the empty string is defect D05), bytea as hex, json ---- *)
+Theorem C04_text : forall o oid s t, oid = 25 \/ oid = 1043 \/ oid = 1042 \/ oid = 142 -> valid_utf8 s = true -> 0 < blen s ->
+  DT o (IMG (enc_text s) t) oid = Ok (exp_text s).
+Proof. intros o. apply text_ok. Qed.
+Print Assumptions C04_text.
+Theorem C04_bytea : forall o d t, 0 < blen d -> DT o (IMG d t) 17 = Ok (exp_bytea d).
+Proof. intros o. apply bytea_ok. Qed.
+Print Assumptions C04_bytea.
+Theorem C04_json : forall o d doc t, 0 < blen d -> o_json_unmarshal o d = Some doc -> DT o (IMG d t) 114 = Ok doc.
+Proof. intros o. apply json_ok. Qed.
+Print Assumptions C04_json.
+(* bit (1560) / varbit (1562): all lengths *)
+Theorem C04_bits : forall o oid l t, oid = 1560 \/ oid = 1562 -> Z.of_nat (length l) < 2 ^ 31 ->
+  DT o (IMG (enc_bits l) t) oid = Ok (exp_bits l).
+Proof. intros o. apply bits_ok. Qed.
+Print Assumptions C04_bits.
+
+(* ---- dates, times, timestamps, intervals ---- *)
+(* the calendar oracle: Hinnant's civil_from_days inverts the day count on every valid date of every year *)
+Theorem C04_calendar : forall y m d, valid_date y m d -> civil_from_days (days_from_civil y m d) = (y, m, d).
+Proof. exact civil_from_days_from_civil. Qed.
+Print Assumptions C04_calendar.
+(* years 0001..9999 and +/- infinity *)
+Theorem C04_date : forall o v t, wf_date v -> DT o (IMG (enc_date v) t) 1082 = Ok (exp_date v).
+Proof. intros o. apply date_ok. Qed.
+Print Assumptions C04_date.
+Theorem C04_time : forall o c t, wf_clock c -> DT o (IMG (enc_time c) t) 1083 = Ok (exp_time c).
+Proof. intros o. apply time_ok. Qed.
+Print Assumptions C04_time.
+(* every zone offset -15:59:59 .. +15:59:59, minutes and seconds included *)
+Theorem C04_timetz : forall o c z t, wf_clock c -> wf_tz z -> DT o (IMG (enc_timetz c z) t) 1266 = Ok (exp_timetz c z).
+Proof. intros o. apply timetz_ok. Qed.
+Print Assumptions C04_timetz.
+(* timestamp (1114) and timestamptz (1184): years 0001..9999 and +/- infinity, to the second *)
+Theorem C04_timestamp : forall o oid v t, oid = 1114 \/ oid = 1184 -> wf_ts v -> DT o (IMG (enc_ts v) t) oid = Ok (exp_ts v).
+Proof. intros o. apply ts_ok. Qed.
+Print Assumptions C04_timestamp.
+(* every int64 time, int32 days, int32 months: all sign combinations *)
+Theorem C04_interval : forall o v t, wf_ival v -> DT o (IMG (enc_interval v) t) 1186 = Ok (exp_interval v).
+Proof. intros o. apply interval_ok. Qed.
+Print Assumptions C04_interval.
+
+(* ---- uuid, MAC, inet/cidr ---- *)
+Theorem C04_uuid : forall o u t, blen u = 16 -> DT o (IMG u t) 2950 = Ok (exp_uuid u).
+Proof. intros o. apply uuid_ok. Qed.
+Print Assumptions C04_uuid.
+Theorem C04_macaddr : forall o a t, blen a = 6 -> DT o (IMG a t) 829 = Ok (exp_mac a).
+Proof. intros o. apply macaddr_ok. Qed.
+Print Assumptions C04_macaddr.
+Theorem C04_macaddr8 : forall o a t, blen a = 8 -> DT o (IMG a t) 774 = Ok (exp_mac a).
+Proof. intros o. apply macaddr8_ok. Qed.
+Print Assumptions C04_macaddr8.
+(* inet (869) / cidr (650): IPv4 and IPv6, every prefix length *)
+Theorem C04_inet : forall o oid v t, oid = 869 \/ oid = 650 -> wf_inet v -> DT o (IMG (enc_inet v) t) oid = Ok (exp_inet v).
+Proof. intros o. apply inet_ok. Qed.
+Print Assumptions C04_inet.
+
+(* ---- geometric: every component, as bit patterns handed to the float printer ---- *)
+Theorem C04_point : forall o p t, wf_point p -> DT o (IMG (enc_point p) t) 600 = Ok (exp_point (o_fmt_g o) p).
+Proof. intros o. apply point_ok. Qed.
+Print Assumptions C04_point.
+Theorem C04_lseg : forall o p q t, wf_point p -> wf_point q -> DT o (IMG (enc_lseg p q) t) 601 = Ok (exp_lseg (o_fmt_g o) p q).
+Proof. intros o. apply lseg_ok. Qed.
+Print Assumptions C04_lseg.
+Theorem C04_box : forall o p q t, wf_point p -> wf_point q -> DT o (IMG (enc_lseg p q) t) 603 = Ok (exp_box (o_fmt_g o) p q).
+Proof. intros o. apply box_ok. Qed.
+Print Assumptions C04_box.
+Theorem C04_line : forall o a b c t, in_u 64 a -> in_u 64 b -> in_u 64 c ->
+  DT o (IMG (enc_line a b c) t) 628 = Ok (exp_line (o_fmt_g o) a b c).
+Proof. intros o. apply line_ok. Qed.
+Print Assumptions C04_line.
+Theorem C04_circle : forall o p r t, wf_point p -> in_u 64 r -> DT o (IMG (enc_circle p r) t) 718 = Ok (exp_circle (o_fmt_g o) p r).
+Proof. intros o. apply circle_ok. Qed.
+Print Assumptions C04_circle.
+
+(* ---- ranges: int4range 3904, int8range 3926, daterange 3912, tsrange 3908, tstzrange 3910; all 32
+   combinations of the five flag bits, bounds written at datum-relative alignment, flags last ---- *)
+Theorem C04_range : forall o oid typid f lo hi t,
+  relem_fits oid lo = true -> relem_fits oid hi = true -> wf_relem lo -> wf_relem hi -> in_u 32 typid ->
+  DT o (IMG (enc_range_of typid f lo hi) t) oid = Ok (exp_range_of f lo hi).
+Proof. intros o. apply range_ok. Qed.
+Print Assumptions C04_range.
+
+(* ---- type names: PostgreSQL's typname for every oid in the table, "oid:N" for every other integer ---- *)
+Theorem C04_typenames : forall oid, TypeName oid = exp_typename oid.
+Proof. exact typename_ok. Qed.
+Print Assumptions C04_typenames.
+
+(* ---- safety (D30/D33 repaired): no byte string, capacity tail or oid makes DecodeType panic ---- *)
+Theorem C04_no_panic : forall o s oid, DT o s oid <> Panic.
+Proof. intros o. apply DecodeType_np. Qed.
+Print Assumptions C04_no_panic.
+
+(* ---- known findings (pinned by the repository's tests): exact class, agreement outside it,
+   machine-checked witness inside it ---- *)
+(* D07 tid: FULL STATEMENT  forall hi lo pos, DT (enc_tid hi lo pos) 27 = exp_tid hi lo pos  is false
+   whenever bi_hi <> bi_lo (the block number is read as one little-endian u32). *)
+Theorem C04_tid_partial : forall o hi lo pos t, in_u 16 hi -> in_u 16 lo -> in_u 16 pos -> kf_tid hi lo = false ->
+  DT o (IMG (enc_tid hi lo pos) t) 27 = Ok (exp_tid hi lo pos).
+Proof. intros o. apply tid_partial. Qed.
+Print Assumptions C04_tid_partial.
+Theorem C04_tid_refuted : forall o, exists hi lo pos, in_u 16 hi /\ in_u 16 lo /\ in_u 16 pos /\ kf_tid hi lo = true /\
+  DT o (IMG (enc_tid hi lo pos) []) 27 <> Ok (exp_tid hi lo pos).
+Proof. intros o. apply tid_refuted. Qed.
+Print Assumptions C04_tid_refuted.
+(* D08 pg_lsn: wrong whenever high word <> low word (halves printed in the wrong order) *)
+Theorem C04_pglsn_partial : forall o v t, in_u 64 v -> kf_lsn v = false -> DT o (IMG (enc_lsn v) t) 3220 = Ok (exp_lsn v).
+Proof. intros o. apply lsn_partial. Qed.
+Print Assumptions C04_pglsn_partial.
+Theorem C04_pglsn_refuted : forall o, exists v, in_u 64 v /\ kf_lsn v = true /\ DT o (IMG (enc_lsn v) []) 3220 <> Ok (exp_lsn v).
+Proof. intros o. apply lsn_refuted. Qed.
+Print Assumptions C04_pglsn_refuted.
+(* D10 path / polygon: parsed with a layout PostgreSQL does not use; FULL STATEMENTS
+   forall closed ps, wf_points ps -> DT (enc_path closed ps) 602 = exp_path closed ps   and
+   forall b1 b2 ps, wf_points ps -> DT (enc_polygon b1 b2 ps) 604 = exp_polygon ps   are refuted; the
+   class is every stored path/polygon (kf_path = true), so there is no _partial. *)
+Theorem C04_path_refuted : forall o, exists closed ps, wf_points ps /\ kf_path ps = true /\
+  DT o (IMG (enc_path closed ps) []) 602 <> Ok (exp_path (o_fmt_g o) closed ps).
+Proof. intros o. apply path_refuted. Qed.
+Print Assumptions C04_path_refuted.
+Theorem C04_polygon_refuted : forall o, exists b1 b2 ps, wf_points ps /\ kf_path ps = true /\
+  DT o (IMG (enc_polygon b1 b2 ps) []) 604 <> Ok (exp_polygon (o_fmt_g o) ps).
+Proof. intros o. apply polygon_refuted. Qed.
+Print Assumptions C04_polygon_refuted.
+(* D16 numrange: finite bounds are printed as "?"; correct exactly for empty and (,) ranges *)
+Theorem C04_numrange_partial : forall o num_disp typid f lo hi t, in_u 32 typid -> kf_numrange f = false ->
+  DT o (IMG (enc_numrange typid f lo hi) t) 3906 = Ok (exp_numrange num_disp f lo hi).
+Proof. intros o. apply numrange_partial. Qed.
+Print Assumptions C04_numrange_partial.
+Theorem C04_numrange_refuted : forall o num_disp, exists typid f lo hi, in_u 32 typid /\ kf_numrange f = true /\
+  (num_disp lo <> bs "?" -> DT o (IMG (enc_numrange typid f lo hi) []) 3906 <> Ok (exp_numrange num_disp f lo hi)).
+Proof. intros o. apply numrange_refuted. Qed.
+Print Assumptions C04_numrange_refuted.
